@@ -20,13 +20,17 @@ ENGINE = {'name': 'socks5',
          '(sampled in quick, all 256 in thorough), every address form (IPv4, IPv6, domain, empty domain, IP literal as domain, unresolvable '
          'domain, three unassigned types, 0.0.0.0:0), a closed port, ten method lists, request version 4; (3) random scripts truncated at every '
          'byte position or with one bit flipped before the address type. The script is served in one piece, byte by byte or in random pieces, '
-         'then EOF. Scripts whose request would make the library contact anything but the loopback targets are not run. non-trivial = the client '
+         'then EOF. After a successful UDP ASSOCIATE that announced a literal loopback or unspecified address, three datagrams are sent to the '
+         'relay port (from another address of this machine standing for a third party, from the client address with an arbitrary port, and '
+         'last a sentinel from exactly the announced address) and a loopback UDP recorder tells which were forwarded. Scripts whose request would make the library contact anything but the loopback targets are not run. non-trivial = the client '
          'got past method negotiation (server wrote more than a bare refusal); distinct = distinct (configuration, script, observation) terms',
  'trusted_base': ['the in-memory client connection of the harness (serves the script, then EOF after the handler went idle) and its loopback '
                   'TCP targets on 127.0.0.1/[::1] (connections are read to EOF one after the other; a fence connection after each session '
                   'orders the observation)',
                   'environment answers given to the model are measured by the harness on the same machine: net.ResolveIPAddr for the name, a '
                   'trial dial of the destination (connected with IPv4/IPv6 local end, or refused), the address family of net.ListenUDP("udp", nil)',
+                  'the client connection of the harness reports 127.0.0.1:40000 as its RemoteAddr (the model is given client_ip = 127.0.0.1); the '
+                  'third-party datagram is sent from the first non-loopback IPv4 address of the machine, if there is one',
                   'target ports are derived from VERIF_SEED; if taken, the next free pair is used (the port bytes in the scripts then differ)'],
  'modelled': ['modules/l4socks/socks5_handler.go: Provision (Commands -> PermitCommand incl. default and ToUpper(ReplaceAll()); Credentials -> '
               'StaticCredentials with replaced keys/values and dropped empty names; `len(h.Credentials) > 0` on the unfiltered map selects '
@@ -34,8 +38,9 @@ ENGINE = {'name': 'socks5',
               'caddy v2.8.4 Replacer.replace as used by ReplaceAll(s, "") (escapes, unclosed braces, unknown keys), provider = env table',
               'things-go/go-socks5 v0.0.5: ServeConn, authenticate, NoAuth/UserPass authenticators, statute.ParseMethodRequest / '
               'ParseUserPassRequest / ParseRequest, the command check, handleRequest (resolve before rules), PermitCommand.Allow, '
-              'handleConnect/handleBind/handleAssociate up to the reply, SendReply',
-              'not modelled: the relay phase itself (Proxy, the UDP datagram loop: which datagrams are forwarded), write errors towards the client, '
+              'handleConnect/handleBind/handleAssociate up to the reply, SendReply; the source check of the UDP relay loop (relay_accepts) and the '
+              "handler's associateSourceRewriter (pin_source)",
+              'not modelled: the relay phase itself (Proxy, the UDP datagram loop beyond its source check), write errors towards the client, '
               'strings.ToUpper outside ASCII, BindIP (unused by the library for CONNECT/ASSOCIATE), Caddyfile parsing (C15)'],
  'assumptions': ['the theorems hold for every replacer and every upper-casing function; "configured username/password" and "enabled command" are '
                  'stated after replacement / upper-casing, as Provision does',
